@@ -36,6 +36,7 @@ type Check struct {
 	info      map[string]interface{}
 	assum     map[string]bool
 	fu        *feeUnits
+	msOnlySuper bool // moduleServicePath decides the mode rule only
 	cw        []*ctxWrite
 }
 
